@@ -231,10 +231,29 @@ def check(ctx, run):
             got, why = "unknown", "reads a block after destroying it or cannot fold: %s" % u
         want = [(b, 64) for b in ids]
         run.ob("R3", "destroying the list %s frees each block once with the given size" % ids, dl.site, got == want, witness=got, what=why)
-    frees = [render(db, c) for c in db.calls() if "free_memory" in render(db, c)]
-    b_, s_ = db.params[0]["name"], db.params[1]["name"]
-    ok = len(frees) == 2 and frees[0].startswith("allocator_->free_memory(%s->memory_, %s," % (b_, s_)) and "(char *)%s" % b_ in frees[1] and "sizeof(SimpleStringMemoryBlock)" in frees[1]
-    run.ob("R3", "destroying a block frees its buffer (with the size) and then its header, once each", db.site, ok, witness=frees)
+    # destroySimpleStringMemoryBlock folded against a recording allocator: the block's buffer goes back with the class size, then the
+    # header with its own size, once each, and the header is not read after it was freed
+    freed = []
+    BLK, BUF = 3000, 5000
+    sz = prog.types.get("SimpleStringMemoryBlock", {}).get("size")
+
+    def free_hook(o=None, *a_):
+        mem, size_ = (a_[0], a_[1]) if len(a_) >= 2 else (None, None)
+        freed.append((mem, size_))
+        if mem == BLK:
+            for k_ in [k_ for k_ in list(evd.env) if k_.startswith("@%d." % BLK)]:
+                evd.env.pop(k_)           # the header is gone: reading it afterwards is a use-after-free
+        return 0
+    evd = Evaluator(prog, db, env={db.params[0]["name"]: BLK, db.params[1]["name"]: 64, "@%d.memory_" % BLK: BUF, "@%d.next_" % BLK: 0, "allocator_": 700}, calls={"TestMemoryAllocator::free_memory": free_hook})
+    evd.heap_mode = True
+    evd.pass_object = True
+    try:
+        evd.run_blocks(db.entry, max_steps=300)
+        why = ""
+    except Unknown as u:
+        why = "reads the block after freeing it, or cannot be folded: %s" % u
+    ok = not why and [m_ for m_, s_ in freed] == [BUF, BLK] and freed[0][1] == 64 and (sz is None or freed[1][1] == sz)
+    run.ob("R3", "destroying a block folded: frees its buffer (with the size) and then its header (with the header's size), once each", db.site, ok, witness=[str(x) for x in freed], what=why)
 
     def fold_clear(f, free_empty=(), used_empty=()):
         lists = {}
